@@ -5,6 +5,7 @@ import (
 	"io"
 	"net/http"
 	"strings"
+	"time"
 )
 
 type vLog struct{}
@@ -123,7 +124,14 @@ func VerifC19Collector() {
 	dir := vTempDir()
 	enabled := vNondetBool("enabled")
 	secretDir := dir + "/secret-stream-name-and-credentials"
-	cfg := &Config{Enabled: enabled, Interval: 3600e9, DataDir: secretDir}
+	// the reporting interval: one hour, or (only meaningful with telemetry
+	// off: a ticker needs a positive interval) unset / negative
+	interval := []time.Duration{time.Hour, 0, -time.Second}[vChoose(3)]
+	if interval <= 0 {
+		vAssume(!enabled)
+		vCover("no-interval")
+	}
+	cfg := &Config{Enabled: enabled, Interval: interval, DataDir: secretDir}
 	version := "v-test"
 	c, err := New(cfg, version, vLog{})
 	vAssert(err == nil, "collector initialises")
